@@ -37,9 +37,10 @@ VARIABLES scen,    \* [Conns -> scenario]  the environment's script for a connec
           disp,    \* ghost: dispatches to registered interfaces
           hlog,    \* ghost: result each reply attempt reported to the handler
           cut,     \* ghost: indices of frames cut from the stream, in order
-          active   \* the service's connection counter
+          active,  \* the service's connection counter
+          lost     \* ghost: frames a write accepted although the peer was already gone
 
-vars == <<scen, wire, rbuf, cseg, peer, pc, cur, hpos, hfail, hc, out, disp, hlog, cut, active>>
+vars == <<scen, wire, rbuf, cseg, peer, pc, cur, hpos, hfail, hc, out, disp, hlog, cut, active, lost>>
 
 ---------------------------------------------------------------------------
 (* Strings the code takes apart are sequences of one-character strings.    *)
@@ -97,6 +98,9 @@ Written(c) == SumSeq(SubSeq(scen[c].segs, 1, cseg[c]))
 
 Decodes(fr) == fr.cls \in {"call", "null"}
 
+(* how many frames a write may still accept after the peer has gone (unix sockets: none once the close has happened; *)
+(* one is allowed for a close that is only just under way)                                                          *)
+LostCap == 1
 (* what ONE reply attempt puts on the wire and what the handler is told *)
 Frame(f, kind, cont, err, arg, tok) ==
   [f |-> f, kind |-> kind, continues |-> cont, err |-> err, arg |-> arg, tok |-> tok]
@@ -117,6 +121,9 @@ Attempt(fi, call, st, h) ==
                          ELSE put(Frame(fi, "error", FALSE, Join(st.name), "", st.tok))
     [] st.k = "std"   -> put(Frame(fi, "error", FALSE, StdErr(st.std), "a", 0))
     [] st.k = "wait"  -> none("ok")        \* the handler waits for the other connections; no reply attempt
+    [] st.k = "unenc" -> IF call.oneway THEN none("ok") ELSE none("refused")   \* parameters that cannot be encoded: refused, reported,
+                                                                                \* nothing written (a oneway call never gets that far)
+    [] st.k = "pause" -> none("ok")        \* the handler does something else for a while; no reply attempt
 
 (* built-in answers: a call with pseudo script of one std/final step *)
 BuiltinReply(fi, call, r) ==
@@ -158,7 +165,7 @@ InitWith(S) ==
   /\ disp = [c \in Conns |-> <<>>]
   /\ hlog = [c \in Conns |-> <<>>]
   /\ cut = [c \in Conns |-> <<>>]
-  /\ active = Cardinality(Conns)
+  /\ active = Cardinality(Conns) /\ lost = [c \in Conns |-> 0]
 
 ---------------------------------------------------------------------------
 (* Environment *)
@@ -171,7 +178,7 @@ ClientWrite(c) ==
          S == Symbols(scen[c].frames) IN
      wire' = [wire EXCEPT ![c] = @ \o SubSeq(S, a + 1, a + n)]
   /\ cseg' = [cseg EXCEPT ![c] = @ + 1]
-  /\ UNCHANGED <<scen, rbuf, peer, pc, cur, hpos, hfail, hc, out, disp, hlog, cut, active>>
+  /\ UNCHANGED <<scen, rbuf, peer, pc, cur, hpos, hfail, hc, out, disp, hlog, cut, active, lost>>
 
 (* the client ends after its last write - or earlier, when a write failed  *)
 (* because the service had already closed the connection                  *)
@@ -179,7 +186,7 @@ ClientEnd(c) ==
   /\ peer[c] = "open"
   /\ cseg[c] = Len(scen[c].segs) \/ pc[c] \in {"closed", "released"}
   /\ peer' = [peer EXCEPT ![c] = IF scen[c].endhow = "abort" THEN "gone" ELSE "halfclosed"]
-  /\ UNCHANGED <<scen, wire, rbuf, cseg, pc, cur, hpos, hfail, hc, out, disp, hlog, cut, active>>
+  /\ UNCHANGED <<scen, wire, rbuf, cseg, pc, cur, hpos, hfail, hc, out, disp, hlog, cut, active, lost>>
 
 ---------------------------------------------------------------------------
 (* Service *)
@@ -195,7 +202,7 @@ SvcFill(c) ==
   /\ \E n \in 1..Len(wire[c]) :
        /\ rbuf' = [rbuf EXCEPT ![c] = @ \o SubSeq(wire[c], 1, n)]
        /\ wire' = [wire EXCEPT ![c] = SubSeq(@, n + 1, Len(@))]
-  /\ UNCHANGED <<scen, cseg, peer, pc, cur, hpos, hfail, hc, out, disp, hlog, cut, active>>
+  /\ UNCHANGED <<scen, cseg, peer, pc, cur, hpos, hfail, hc, out, disp, hlog, cut, active, lost>>
 
 (* Result of writing built-in reply frames w: if the peer is gone the write *)
 (* may fail (EPIPE) => HandleMessage returns the error => close.           *)
@@ -228,7 +235,7 @@ SvcFrame(c) ==
              \/ /\ peer[c] = "gone" /\ w # <<>>        \* write fails
                 /\ pc' = [pc EXCEPT ![c] = "closing"]
                 /\ UNCHANGED <<cur, hpos, hc, out, disp>>
-  /\ UNCHANGED <<scen, wire, cseg, peer, hfail, hlog, active>>
+  /\ UNCHANGED <<scen, wire, cseg, peer, hfail, hlog, active, lost>>
 
 SvcEOF(c) ==
   /\ pc[c] = "reading"
@@ -236,7 +243,7 @@ SvcEOF(c) ==
   /\ wire[c] = <<>>
   /\ peer[c] # "open"
   /\ pc' = [pc EXCEPT ![c] = "closing"]
-  /\ UNCHANGED <<scen, wire, rbuf, cseg, peer, cur, hpos, hfail, hc, out, disp, hlog, cut, active>>
+  /\ UNCHANGED <<scen, wire, rbuf, cseg, peer, cur, hpos, hfail, hc, out, disp, hlog, cut, active, lost>>
 
 HStep(c) ==
   /\ pc[c] = "handler"
@@ -246,7 +253,9 @@ HStep(c) ==
      \* a handler that waits for the other connections' clients proceeds once they have ended their streams
      /\ (call.script[hpos[c]].k = "wait" => \A d \in Conns \ {c} : peer[d] # "open")
      /\ LET a == Attempt(cur[c], call, call.script[hpos[c]], hc[c]) IN
-        \/ /\ out' = [out EXCEPT ![c] = @ \o a.w]
+        \/ /\ (peer[c] = "gone" /\ a.w # <<>>) => lost[c] < LostCap     \* a vanished peer makes writes fail - at once, or after little
+           /\ lost' = [lost EXCEPT ![c] = IF peer[c] = "gone" /\ a.w # <<>> THEN @ + 1 ELSE @]
+           /\ out' = [out EXCEPT ![c] = @ \o a.w]
            /\ hlog' = [hlog EXCEPT ![c] = Append(@, [f |-> cur[c], k |-> hpos[c], res |-> a.res])]
            /\ hpos' = [hpos EXCEPT ![c] = @ + 1]
            /\ hc' = [hc EXCEPT ![c] = ContOf(call.script[hpos[c]], @)]
@@ -254,7 +263,7 @@ HStep(c) ==
         \/ /\ peer[c] = "gone" /\ a.w # <<>>           \* write fails, handler is told
            /\ hlog' = [hlog EXCEPT ![c] = Append(@, [f |-> cur[c], k |-> hpos[c], res |-> "ioerr"])]
            /\ hfail' = [hfail EXCEPT ![c] = TRUE]
-           /\ UNCHANGED <<out, hpos, hc>>
+           /\ UNCHANGED <<out, hpos, hc, lost>>
   /\ UNCHANGED <<scen, wire, rbuf, cseg, peer, pc, cur, disp, cut, active>>
 
 (* the scripted handler returns: the I/O error it saw, else its scripted value *)
@@ -265,18 +274,18 @@ HReturn(c) ==
   /\ hfail[c] \/ hpos[c] > Len(scen[c].frames[cur[c]].script)
   /\ pc' = [pc EXCEPT ![c] = IF HRetVal(c) = "nil" THEN "reading" ELSE "closing"]
   /\ hfail' = [hfail EXCEPT ![c] = FALSE]
-  /\ UNCHANGED <<scen, wire, rbuf, cseg, peer, cur, hpos, hc, out, disp, hlog, cut, active>>
+  /\ UNCHANGED <<scen, wire, rbuf, cseg, peer, cur, hpos, hc, out, disp, hlog, cut, active, lost>>
 
 SvcCloseConn(c) ==
   /\ pc[c] = "closing"
   /\ pc' = [pc EXCEPT ![c] = "closed"]
-  /\ UNCHANGED <<scen, wire, rbuf, cseg, peer, cur, hpos, hfail, hc, out, disp, hlog, cut, active>>
+  /\ UNCHANGED <<scen, wire, rbuf, cseg, peer, cur, hpos, hfail, hc, out, disp, hlog, cut, active, lost>>
 
 SvcRelease(c) ==
   /\ pc[c] = "closed"
   /\ pc' = [pc EXCEPT ![c] = "released"]
   /\ active' = active - 1
-  /\ UNCHANGED <<scen, wire, rbuf, cseg, peer, cur, hpos, hfail, hc, out, disp, hlog, cut>>
+  /\ UNCHANGED <<scen, wire, rbuf, cseg, peer, cur, hpos, hfail, hc, out, disp, hlog, cut, lost>>
 
 SvcNext(c) == SvcFill(c) \/ SvcFrame(c) \/ SvcEOF(c) \/ HStep(c) \/ HReturn(c)
               \/ SvcCloseConn(c) \/ SvcRelease(c)
@@ -341,7 +350,8 @@ RefusedReported == \A c \in Conns : \A i \in 1..Len(hlog[c]) :
      LET call == scen[c].frames[hlog[c][i].f]
          st == call.script[hlog[c][i].k] IN
      hlog[c][i].res = "refused" <=> ((st.k \in ReplyKinds /\ ContOf(st, HcAt(call.script, hlog[c][i].k)) /\ ~call.more)
-                                     \/ (st.k = "err" /\ ~NameOK(st.name)))
+                                     \/ (st.k = "err" /\ ~NameOK(st.name))
+                                     \/ (st.k = "unenc" /\ ~call.oneway))
 
 (* C02: the frames the service cuts are the frames the client wrote, whole *)
 SegmentationIndependence ==
